@@ -28,5 +28,10 @@ META.update({
  "C13": {"text": "A pairwise covering array over 16 commit/purge/arena/reclaim options (then random vectors) is crossed with generated C01/C03/C04/C05/C12 histories and virtual-clock ticks; all those oracles run unchanged and the OS shim additionally asserts that no purge/decommit/unmap range touches a live model block; debug/secure builds revoke access on decommit so touching decommitted memory faults.",
          "design_ref": "DESIGN.md §5 C13", "note": NOTE_HIST + " Options are applied with mi_option_set before the first allocation of the child process (not through the environment).", "technique": "property-based testing: pairwise covering array of option vectors x generated histories, OS-call policing through an interposed shim"},
 })
+
+META.update({
+ "C18": {"text": "Generated purge configurations x workloads (whole pages of a surviving segment, whole segments, everything) x virtual-clock advances x ordinary activity without any forced collect; the OS shim's log of madvise/mprotect calls decides presence (delay > 0 after expiry, delay 0 at once) or total absence (delay -1) of purging per freed region. Found and now guards the repaired arena-expiry comparison defect (F3).",
+         "design_ref": "DESIGN.md §5 C18, §6 F3", "note": NOTE_HIST + " An expectation is only evaluated when its premise is observable (clock beyond delay*mult, a non-forced collect or a free in the same segment happened before the memory could be handed out again).", "technique": "property-based testing with a virtual clock and an interposed OS layer: generated purge scenarios, oracle = presence/absence of purge calls per freed region"},
+})
 ALL = ["C%02d" % i for i in range(1, 21)]
 NOT_APPLICABLE = [{"property_id": p, "reason": "check not built yet in this revision (planned, see DESIGN.md §10); not claimed"} for p in ALL if p not in CHECKS]
